@@ -7,6 +7,8 @@ CONSTANTS
   RegisterFirst = TRUE
   OldDelDeletedEarly = FALSE
   GcProtectsBuilding = TRUE
+  MaxFaults = 1
+  StoreMetaFirst = FALSE
 INVARIANT CrashSafe
 INVARIANT CrashDurable
 INVARIANT OrphanIsF4Class
